@@ -143,6 +143,10 @@ func (e *esdtNFTMultiTransfer) ProcessBuiltinFunction(
 	if numOfTransfers == 0 {
 		return nil, fmt.Errorf("%w, 0 tokens to transfer", ErrInvalidArguments)
 	}
+	// there can not be more transfers than arguments - checked first so that the multiplication can not overflow
+	if numOfTransfers > uint64(len(vmInput.Arguments)) {
+		return nil, fmt.Errorf("%w, invalid number of arguments", ErrInvalidArguments)
+	}
 	minNumOfArguments := numOfTransfers*argumentsPerTransfer + 1
 	if uint64(len(vmInput.Arguments)) < minNumOfArguments {
 		return nil, fmt.Errorf("%w, invalid number of arguments", ErrInvalidArguments)
@@ -225,6 +229,10 @@ func (e *esdtNFTMultiTransfer) processESDTNFTMultiTransferOnSenderShard(
 	numOfTransfers := big.NewInt(0).SetBytes(vmInput.Arguments[1]).Uint64()
 	if numOfTransfers == 0 {
 		return nil, fmt.Errorf("%w, 0 tokens to transfer", ErrInvalidArguments)
+	}
+	// there can not be more transfers than arguments - checked first so that the multiplication can not overflow
+	if numOfTransfers > uint64(len(vmInput.Arguments)) {
+		return nil, fmt.Errorf("%w, invalid number of arguments", ErrInvalidArguments)
 	}
 	minNumOfArguments := numOfTransfers*argumentsPerTransfer + 2
 	if uint64(len(vmInput.Arguments)) < minNumOfArguments {
